@@ -114,6 +114,7 @@ type interpreter struct {
 	locks           map[*value]*lockState
 	syncMaps        map[*value]*omap
 	counters        map[*value]*int
+	symxPkg         *ssa.Package       // verif/symx of the loaded program (virtual file system entry points)
 	pools           map[*value][]value // sync.Pool model: retained items per pool (LIFO)
 	wrapped         map[*value]iface
 	params          map[string]int
